@@ -142,6 +142,7 @@ func checkC02(c *Ctx) {
 	// the pre-image is expressed in these byte-level primitives (length prefix for every slice length, 32-byte hash form)
 	c.rule("FORMAT-primitives", "length-prefixed bytes and 32-byte hash primitives", 2)
 	checkFormatX(c, l, "FORMAT-primitives", "encoding.EncodeBytes", l.Func("internal/encoding", "EncodeBytes"), false, true, []string{"U(len(arg1)) W(arg1)"})
+	checkVarintBoundaries(c, "FORMAT-primitives")
 	checkFormatX(c, l, "FORMAT-primitives", "encoding.Encode32BytesHash", l.Func("internal/encoding", "Encode32BytesHash"), false, true, []string{"W(global:hashLenBz) W(arg1)"})
 	c.rule("OWN-node-version", "a node's version (hashed into it) is fixed when the node is created or first keyed; re-keying keeps it", 1)
 	checkNodeVersionOwner(c)
